@@ -582,7 +582,7 @@ def fam_extremal(rng, tier):
     cached attacker-chosen templates"""
     out = []
     # (a) one IPFIX data set packed with 1-byte records (recursion depth = number of records)
-    for nrec in ([2000, 20000, 65000] if tier == "quick" else [1000, 2000, 4000, 8000, 16000, 32000, 65000]):
+    for nrec in ([2000, 20000] if tier == "quick" else [1000, 2000, 4000, 8000, 16000, 32000, 65000]):
         t = {"id": 256, "fields": [{"typ": 4, "len": 1, "ent": None}]}
         tm = {"ipfix": {"m": {"exportTime": 1, "seq": 1, "odid": 1, "sets": [{"templates": {"ts": [t], "pad": ""}}]}}}
         data = {"ipfix": {"m": {"exportTime": 2, "seq": 2, "odid": 1, "sets": [{"data": {"id": 256, "recs": [[{"content": "07", "form": "fixed"}]] * nrec, "pad": ""}}]}}}
